@@ -363,6 +363,12 @@ def drawing(draw, min_symbols=3, max_symbols=6, symbol_pool=None, sources_v=None
         if k not in used and lab not in names:
             used.add(k)
             items.append({'sym': 'label', 'at': home[k], 'name': lab, 'loc': draw(st.sampled_from(['N', 'S', 'E', 'W', 'NE']))})
+    wires = [it for it in items if it['sym'] == 'line']
+    if wires and draw(st.integers(0, 4)) == 0:
+        # the same connection drawn a second time the other way round: a wire net in which every point is the END of
+        # some wire (as in a closed ring of wires drawn head to tail) is still one node
+        w_ = wires[draw(st.integers(0, len(wires) - 1))]
+        items.append({'sym': 'line', 'p': list(w_['q']), 'q': list(w_['p'])})
     if g and label_on_ground and draw(st.integers(0, 3)) == 0:
         # a named node on the reference net itself (at the ground symbol, or at any other point of that net)
         lab = draw(st.sampled_from(['N', 'gnd', 'GND', '7', 'ref']))
